@@ -83,6 +83,14 @@ def generate(prop, rng):
                     continue
                 edits.append({"op": kind, "rel": rng.choice(sorted(trees[prior])),
                               "content": rng.randrange(len(pool)), "uncached": rng.random() < 0.5})
+        if rng.random() < 0.25:
+            # two names with identical content in both trees, hard-linked to EACH OTHER by the user
+            ci = rng.randrange(len(pool))
+            for t in (trees[prior], trees[target]):
+                for nm in ("hp1", "hp2"):
+                    if not any(o.startswith(nm + "/") for o in t):
+                        t[nm] = ci
+            edits.append({"op": "linkpair", "a": "hp1", "b": "hp2"})
         cfg.update(l0=l0, l1=l1, with_state=rng.random() < 0.7, single_file=rng.random() < 0.15)
         sc.update(prior=prior, target=target, edits=edits, kind="c10")
         return sc
@@ -104,7 +112,7 @@ def generate(prop, rng):
             else:
                 ops.append({"op": o, "tree": rng.randrange(ntrees), "relink": rng.random() < 0.3,
                             "prompt": rng.choice([None, "decline"]), "link": rng.choice(links),
-                            "force": rng.random() < 0.15})
+                            "force": rng.random() < 0.15, "as_file": rng.random() < 0.2})
     else:
         for _ in range(rng.randint(4, 12)):
             o = gen.weighted(rng, [(3, "materialise"), (3, "save_link"), (4, "user_write"), (2, "user_delete"),
@@ -120,7 +128,8 @@ def generate(prop, rng):
             elif o == "user_delete":
                 ops.append({"op": o, "slot": slot, "rel": rng.choice(names + [""])})
             elif o == "checkout_rec":
-                ops.append({"op": o, "slot": slot, "tree": rng.randrange(ntrees)})
+                ops.append({"op": o, "slot": slot, "tree": rng.randrange(ntrees), "link": rng.choice(links),
+                            "as_file": rng.random() < 0.4})
             else:
                 ops.append({"op": o, "used": [s for s in ("p0", "p1", "p2") if rng.random() < 0.4]})
     sc["ops"] = ops
@@ -137,7 +146,8 @@ def valid(sc):
             return False
     nt = len(sc["trees"])
     if sc.get("kind") == "c10":
-        return sc["prior"] < nt and sc["target"] < nt and all(e.get("content", 0) < n for e in sc["edits"])
+        return sc["prior"] < nt and sc["target"] < nt and sc["prior"] != sc["target"] and all(
+            e.get("content", 0) < n for e in sc["edits"])
     for op in sc.get("ops", []):
         if op.get("tree", 0) >= nt or op.get("content", 0) >= n:
             return False
@@ -285,9 +295,14 @@ def _exec_c05_checkout(sc, ctx, env):
             env.odb.cache_types = [op["link"]]
             ctx.clock.advance(10**9)
             raised = None
+            tci = sorted(sc["trees"][op["tree"]].values())[0]
+            try:
+                target_obj = env.file_obj(tci) if op.get("as_file") else env.tree_obj(op["tree"])
+            except Exception:  # noqa: BLE001  (evicted .dir object: nothing to check out)
+                continue
             try:
                 checkout(
-                    path, env.w.localfs, env.tree_obj(op["tree"]), env.odb, force=op["force"], relink=op["relink"],
+                    path, env.w.localfs, target_obj, env.odb, force=op["force"], relink=op["relink"],
                     state=env.state, prompt=(lambda msg: False) if op["prompt"] == "decline" else None,
                 )
             except Exception as exc:  # noqa: BLE001
@@ -303,6 +318,8 @@ def _exec_c05_checkout(sc, ctx, env):
                     f"op{n} {op}: lost {lost} (bytes not in cache); raised={raised!r}",
                 )
             tgt = {rel: env.contents[ci] for rel, ci in sc["trees"][op["tree"]].items()}
+            if op.get("as_file"):
+                tgt = {"": env.contents[tci]}
             in_way = sorted(r for r, b in U.items() if tgt.get(r) != b)
             if not lost and in_way and raised is None:
                 ctx.violate("unforced-checkout-did-not-refuse", f"relink={op['relink']}",
@@ -355,7 +372,9 @@ def _exec_c05_links(sc, ctx, env):
             p = slot_path(op["slot"])
             ctx.clock.advance(10**9)
             try:
-                checkout(p, env.w.localfs, env.tree_obj(op["tree"]), env.odb, force=True, state=st)
+                env.odb.cache_types = [op.get("link", "copy")]
+                tobj = env.file_obj(sorted(sc["trees"][op["tree"]].values())[0]) if op.get("as_file") else env.tree_obj(op["tree"])
+                checkout(p, env.w.localfs, tobj, env.odb, force=True, state=st)
                 recorded[op["slot"]] = True
             except Exception:  # noqa: BLE001
                 # a failed checkout may or may not have touched the path and may
@@ -470,11 +489,17 @@ def _exec_c10(sc, ctx, env):
     checkout(path, env.w.localfs, obj_for(sc["prior"]), env.odb, force=True, state=env.state)
     if not single:
         for e in sc["edits"]:
-            p = os.path.join(path, e["rel"])
+            p = os.path.join(path, e.get("rel", ""))
             if e["op"] == "add":
                 if any(r == e["rel"] or r.startswith(e["rel"] + "/") or e["rel"].startswith(r + "/") for r in list(prior_t) + list(target_t)):
                     continue
                 env.user_write(p, env.contents[e["content"]])
+            elif e["op"] == "linkpair":
+                pa, pb = os.path.join(path, e["a"]), os.path.join(path, e["b"])
+                if os.path.isfile(pa) and not os.path.islink(pa) and os.path.lexists(pb) and prior_t.get(e["a"]) == prior_t.get(e["b"]):
+                    env.ctx.clock.advance(10**9)
+                    REAL["os.unlink"](pb)
+                    REAL["os.link"](pa, pb)
             elif e["op"] == "replace":
                 data = env.contents[e["content"]]
                 if e.get("uncached"):
